@@ -168,3 +168,85 @@ def run_bytes(bcode, inputs=(), max_ticks=20000, impl=None, interrupt_at=None, m
 def text_of(trace):
     """concatenated terminal_print text"""
     return ''.join(c[1] for c in trace if c[0] == 'terminal_print')
+
+
+# ---------------------------------------------------------------- parallel helpers
+
+def _tramp(fn):
+    return fn()
+
+
+# CPython >= 3.11 keeps interpreter frames in 16 KiB "data stack" chunks that are mmap'ed and munmap'ed every time the
+# recursion depth crosses a chunk boundary; pyparsing's deep recursion makes that ~4000 system calls per compilation,
+# which are extremely slow (and do not scale over processes) in this sandbox.  Running the work below a frame whose
+# code object declares a huge evaluation stack makes the interpreter allocate ONE big chunk that all nested frames share.
+_tramp.__code__ = _tramp.__code__.replace(co_stacksize=1_100_000)
+
+
+def big_frame(fn):
+    return _tramp(fn)
+
+
+def run_task(task):
+    return _tramp(lambda: _run_task(task))
+
+
+def _run_task(task):
+    """worker: compile `src` at the given configurations and run each module with the scripted inputs.
+    -> list of dicts (picklable): cfg, status, err, outcome, trace, ticks, depth, sections (1-4 bytes hex), listing"""
+    src, inputs, configs, max_ticks, want = task
+    out = []
+    for (o, g) in configs:
+        rec = {'cfg': (o, g)}
+        st = try_compile(src, o, g, want_bytes=True, want_listing=('listing' in want))
+        rec['status'] = st[0]
+        if st[0] != 'ok':
+            e = st[1]
+            rec['err'] = (type(e).__name__, str(getattr(e, 'code', '')) , getattr(e, 'loc_start', None), str(e)[:200])
+            if st[0] == 'internal':
+                import traceback
+                tb = traceback.extract_tb(e.__traceback__)
+                rec['where'] = f'{tb[-1].name}:{tb[-1].lineno}' if tb else ''
+            out.append(rec)
+            continue
+        b = st[2]
+        if 'sections' in want:
+            rec['sections'] = split_sections(b)
+        if 'listing' in want:
+            rec['listing'] = str(st[1])
+        if 'instrs' in want:
+            rec['instrs'] = [repr(i) for i in st[1]._instrs]
+        if 'norun' not in want:
+            r = run_bytes(b, inputs=inputs, max_ticks=max_ticks)
+            rec['outcome'] = r.outcome
+            rec['trace'] = r.trace
+            rec['ticks'] = r.ticks
+            rec['depth'] = r.stack_depth
+            rec['stdout'] = r.stdout[-300:]
+        out.append(rec)
+    return out
+
+
+def split_sections(b):
+    """{section id: bytes} of a module image (debug section 5 included as is)"""
+    secs = {}
+    i = 0
+    while i < len(b):
+        sid = b[i]
+        ln = struct.unpack('>I', b[i + 1:i + 5])[0]
+        secs[sid] = b[i + 5:i + 5 + ln]
+        i += 5 + ln
+    return secs
+
+
+def pmap(fn, tasks, procs=None):
+    """ordered parallel map over forked workers (the real code is imported in the parent)"""
+    import multiprocessing as mp
+    import os
+    if procs is None:
+        procs = min(8, os.cpu_count() or 1)
+    if procs <= 1 or len(tasks) < 4:
+        return [fn(t) for t in tasks]
+    ctx = mp.get_context('fork')
+    with ctx.Pool(procs) as pool:
+        return pool.map(fn, tasks, chunksize=max(1, len(tasks) // (procs * 4)))
